@@ -27,3 +27,27 @@ Theorem tree_roundtrip : forall sha_len es fuel,
   py_parse_tree fuel sha_len false (serialize_tree es) = Some es.
 Proof. exact tree_roundtrip_lemma. Qed.
 Print Assumptions tree_roundtrip.
+
+(* ---------- author / committer / tagger lines (Model/TimeEntry.v) ---------- *)
+From DV Require Import TimeEntry TimeEntryP.
+
+(* every time zone git emits — a whole number of minutes, with "-0000" as the
+   only use of the minus sign on a non-negative offset — is written and read back
+   unchanged, whatever its size *)
+Theorem timezone_roundtrip_git_spellings : forall offset neg, offset mod 60 = 0 -> (neg = true -> offset = 0) ->
+  exists t, format_timezone offset neg = Some t /\ parse_timezone t = Some (offset, neg).
+Proof. intros offset neg M N. destruct (timezone_roundtrip offset neg M N) as (t & F & P & _). eauto. Qed.
+Print Assumptions timezone_roundtrip_git_spellings.
+
+(* and so is the whole line: an identity ending in '>', any time stamp (negative,
+   beyond 2^32), any such zone *)
+Theorem time_entry_line_roundtrip : forall p time tz neg, tz mod 60 = 0 -> (neg = true -> tz = 0) ->
+  exists v, format_time_entry (p ++ [GT]) time tz neg = Some v /\ parse_time_entry v = TOk (p ++ [GT]) time tz neg.
+Proof. exact time_entry_roundtrip. Qed.
+Print Assumptions time_entry_line_roundtrip.
+
+(* outside git's spellings the minus flag on a positive offset that is no multiple
+   of half an hour does not survive ("--" zones come only from broken commits) *)
+Example minus_flag_on_one_minute_is_lost :
+  format_timezone 60 true = Some [45; 48; 48; 53; 57] /\ parse_timezone [45; 48; 48; 53; 57] = Some (-3540, false).
+Proof. vm_compute. split; reflexivity. Qed.
